@@ -31,7 +31,7 @@ for pos in [0, 1, 31]:
     H.append(dict(name="select.selectPreComputed-pos%d" % pos, pkg=PKG, files=F, entry="HarnessSelectPreComputed", mode="bv", params={"p0": pos}, validate=4, unwind=64,
                   functions=["edwards25519.selectPreComputed", "edwards25519.(*preComputedGroupElement).CMove", "edwards25519.(*preComputedGroupElement).Neg"],
                   bound="table row %d with arbitrary contents, all digits b in -8..8" % pos, tiers=(["quick", "thorough"] if pos in (0, 31) else ["thorough"])))
-for off, n, quick in [(0, 0, True), (31, 1, True), (0, 1, False), (1, 1, False), (15, 1, False), (30, 1, False), (30, 2, False), (0, 2, False)]:
+for off, n, quick in [(0, 0, True), (31, 1, True), (0, 1, False), (1, 1, False), (15, 1, False), (30, 1, False)]:  # two-byte windows (30,2), (0,2) were tried: the symbolic execution does not finish within 50 minutes - not claimed
     H.append(dict(name="alg.geScalarMultVartime-bytes%d+%d" % (off, n), pkg=PKG, files=F, entry="HarnessAlgVartime", mode="int", params={"p0": off, "p1": n}, renames=ren, math_in=math, unwind=200000, wrap_conversions=True, prune=True,
                   replay_entry="HarnessAlgReplayWindow", stubs=stubs[:1], timeout_ms=600000, exec_timeout_s=(3000 if n == 2 else 900),
                   functions=["edwards25519.geScalarMultVartime", "edwards25519.slide"], bound=("the zero scalar (stale output contents)" if n == 0 else "all scalars whose non-zero bytes are bytes %d..%d (2^%d values incl. the zero scalar), a[31] <= 127; dead branch arms pruned by solver feasibility queries" % (off, off + n - 1, 8 * n)),
